@@ -933,6 +933,9 @@ class ED_ShockProfiles(RadShockProfile):
         x_shift = numpy.interp(1., Ms[::-1], xs[::-1])
         if (self.M1 < numpy.sqrt(1. / self.gamma)):
             x_shift = xs[-2]
+            # downstream of the embedded isothermal shock the state is uniform:
+            # no diffusive flux, only the advected radiation enthalpy remains
+            Fr[-1] = 4. / 3. * speed[-1] / self.C0 * Ts[-1]**4
         xs -= x_shift
         M_precursor = numpy.where(Ms >= 1., Ms, 0.)
         M_relaxation = numpy.where(Ms < 1., Ms, 0.)
